@@ -67,7 +67,13 @@ PrefDominates(t, s) == (\A o \in 1..Len(t) : t[o] <= s[o]) /\ (\E o \in 1..Len(t
 PrefVerdict(c) ==
     LET ns == Len(c.objs)
         \* the declared preference: wt * (vec . objectives), larger is preferred
-        scores == [s \in 1..ns |-> c.wt * SumTo([o \in 1..Len(c.vec) |-> c.vec[o] * c.objs[s][o]], Len(c.vec))]
+        \* (c.trans: the transformation of the front -- "dot": vec . objectives; "sq": its square; "max": the largest weighted
+        \*  objective -- the weight multiplies the transformation's OUTPUT)
+        lin == [s \in 1..ns |-> SumTo([o \in 1..Len(c.vec) |-> c.vec[o] * c.objs[s][o]], Len(c.vec))]
+        mx == [s \in 1..ns |-> CHOOSE x \in {c.vec[o] * c.objs[s][o] : o \in 1..Len(c.vec)} :
+                                   \A y \in {c.vec[o] * c.objs[s][o] : o \in 1..Len(c.vec)} : y <= x]
+        tr == IF "trans" \in DOMAIN c THEN c.trans ELSE "dot"
+        scores == [s \in 1..ns |-> c.wt * (IF tr = "sq" THEN lin[s] * lin[s] ELSE IF tr = "max" THEN mx[s] ELSE lin[s])]
         best == {s \in 1..ns : IsPreferred(s, scores)}
     IN IF c.err # "none" THEN "exception-on-valid-input"
        ELSE IF ns = 0 THEN "empty-front"
